@@ -10,7 +10,7 @@
 From Coq Require Import ZArith NArith List Bool.
 From Falcon.lib Require Import PyStr.
 From Falcon.gen Require Import ConstsC01.
-From Falcon.C01 Require Import Model Spec ProofsBase ProofsGen ProofsHead ProofsCorrect ProofsWf ProofsCompiles ProofsRouter.
+From Falcon.C01 Require Import Model Spec ProofsBase ProofsGen ProofsHead ProofsCorrect ProofsWf ProofsCompiles ProofsRouter ProofsConv.
 Import ListNotations.
 
 (* Compiler correctness: for every well-formed tree and every path, running the generated
@@ -131,6 +131,24 @@ Theorem C01_identifier_newline_refuted_before_fix :
     run_finder true (compile ex_cinst ex_multi roots) path = Crash.
 Proof. exact identifier_newline_refuted_before_fix. Qed.
 Print Assumptions C01_identifier_newline_refuted_before_fix.
+
+(* Converters veto: an int / float converter with bounds lets nothing outside them through —
+   for every bound, zero included (a converted value exists only within [min, max], with the
+   required digit count / finiteness). *)
+Theorem C01_int_bounds_veto : forall nd mn mx s z,
+  int_convert nd mn mx s = Some z ->
+  (forall m, mn = Some m -> (m <= z)%Z) /\ (forall m, mx = Some m -> (z <= m)%Z) /\
+  (forall n, nd = Some n -> Z.of_nat (length s) = n).
+Proof. exact int_convert_bounds. Qed.
+Print Assumptions C01_int_bounds_veto.
+
+Theorem C01_float_bounds_veto : forall mn mx fin tbl s v,
+  float_convert mn mx fin tbl s = Some v ->
+  exists x, tbl_get tbl s = Some x /\ v = VOther (f_repr x) /\
+            (fin = true -> f_finite x = true) /\
+            (forall b, mn = Some b -> f_lt x b = false) /\ (forall b, mx = Some b -> f_gt x b = false).
+Proof. exact float_convert_bounds. Qed.
+Print Assumptions C01_float_bounds_veto.
 
 (* The groups of a segment-pattern match are exactly the pattern's fields (so that the
    generated groups.pop(name) cannot raise). *)
